@@ -1,0 +1,14 @@
+//go:build verif
+
+package faults
+
+// VerifPoint, when set, is called at the scheduling points of Set.Check so
+// that a verification harness can observe and order the lock-free steps of
+// concurrent callers. It may block. It is nil unless a harness installs it.
+var VerifPoint func(point string, op string, params Parameters)
+
+func verifPoint(point string, op string, params Parameters) {
+	if f := VerifPoint; f != nil {
+		f(point, op, params)
+	}
+}
